@@ -118,8 +118,8 @@ class C02(Prop):
     def in_domain(self, stream, ops):
         return uist_case_in_domain(ops)
 
-    streams = [Stream("uist", "mix", quick=400, thorough=40000, tags={"F", "B", "REJECT-ADMISSION", "PANIC"}, canon=sort_fills),
-               Stream("uist", "dup", quick=300, thorough=20000, tags={"F", "B", "REJECT-ADMISSION", "PANIC"}, canon=sort_fills)]
+    streams = [Stream("uist", "mix", quick=400, thorough=40000, tags={"F", "B", "REJECT-ADMISSION", "PANIC"}, canon=sort_fills, exact="uist-exact"),
+               Stream("uist", "dup", quick=300, thorough=20000, tags={"F", "B", "REJECT-ADMISSION", "PANIC"}, canon=sort_fills, exact="uist-exact")]
     determined = True
     determined_why = ("the property fixes, for a given resting book and tick quotes, exactly which orders fill, "
                       "at which price, quantity, value and date, and that the others keep resting")
@@ -223,7 +223,7 @@ def exch_streams(kind, prop_tags_uist, prop_tags_jura, q=300, t=30000, canon=Non
                          state_tags=EXCH_STATE - set(prop_tags_uist), canon=canon, exact="uist-exact"))
     if prop_tags_jura is not None:
         ss.append(Stream("jura", kind, quick=q, thorough=t, tags=set(prop_tags_jura) | {"REJECT-ADMISSION", "PANIC", "ok", "reset", "bad-op"},
-                         state_tags=EXCH_STATE - set(prop_tags_jura)))
+                         state_tags=EXCH_STATE - set(prop_tags_jura), exact="jura-exact"))
     return ss
 
 
@@ -482,7 +482,8 @@ class C17(Prop):
                   "list is that permutation stamped with consecutive ids (so the admitted set is the submitted set and every sell's id is "
                   "below every buy's), ids in the book increase strictly in every reachable state, and the fills of a tick are in "
                   "increasing id order. That sort_by under the one-sided comparator returns a sell-first permutation is outside the "
-                  "proof (unspecified by std): it is checked on every admitted batch of every run by the driver and by a monitor.")
+                  "proof (unspecified by std): it is checked on every admitted batch of every run by the driver and by a monitor; for the "
+                  "insertion sort std runs on slices of at most 20 elements the hypothesis is discharged (small_slice_sort_is_sell_first).")
     level_note = ("Partial: the standard library's behaviour for a comparator that is not a total order is assumed, and validated on every "
                   "run for batch sizes across all sort thresholds; the rest is proved over the model")
     technique = "Lean 4 proof relative to a checked sell-first-permutation oracle for sort_by + batch-size-targeted correspondence"
@@ -1917,8 +1918,8 @@ STRAT_TAGS = {"EV", "SN", "RR", "HL", "K", "TV", "PANIC", "REJECT-ADMISSION", "o
 
 class C16(Prop):
     id = "C16"
-    streams = [Stream("strategy", "mix", quick=300, thorough=20000, driver="strat", tags=STRAT_TAGS, state_tags={"G", "S", "XB", "H"}),
-               Stream("strategy", "constant", quick=150, thorough=10000, driver="strat", tags=STRAT_TAGS, state_tags={"G", "S", "XB", "H"})]
+    streams = [Stream("strategy", "mix", quick=300, thorough=20000, driver="strat", tags=STRAT_TAGS, state_tags={"G", "S", "XB", "H"}, exact="strat-exact"),
+               Stream("strategy", "constant", quick=150, thorough=10000, driver="strat", tags=STRAT_TAGS, state_tags={"G", "S", "XB", "H"}, exact="strat-exact")]
     determined = False
     rule = ("the real StaticWeightStrategy over the real broker over TestClient / eager / lazy clients: datasets of 1..14 dates with gaps, "
             "1..3 target weights (including an unquoted symbol and zero weights), cost lists, deposits through init (also a second "
